@@ -18,10 +18,10 @@ func init() {
 		[]string{"pixel-width arithmetic and getNextWord tokenisation are not decided (DESIGN §6)", "go/ssa lowering is faithful to the source"},
 		"C07.a", "C07.b", "C07.c", "C07.d", "C07.e", "C07.f", "C06.b", "C09.b", "C17.f", "C19.c", "C17.g", "C14.e", "C11.d")
 
-	register(&Rule{ID: "C07.d", Doc: "formatting is a function of (text, font table, parameters): the formatter writes no state; depth counters of the word scanner cannot go negative", Floor: 3, Run: c07d})
-	register(&Rule{ID: "C07.e", Doc: "a width is what the font table says for the glyph when it lists it (also when that is 0), else the font's default, else the fallback: presence decided by the comma-ok bit; cursor room reserved exactly on lines that show the prompt", Floor: 3, Run: c07e})
+	register(&Rule{ID: "C07.d", Doc: "formatting is a function of (text, font table, parameters): the formatter writes no state; depth counters of the word scanner cannot go negative", Floor: 4, Run: c07d})
+	register(&Rule{ID: "C07.e", Doc: "a width is what the font table says for the glyph when it lists it (also when that is 0), else the font's default, else the fallback: presence decided by the comma-ok bit; cursor room reserved exactly on lines that show the prompt", Floor: 5, Run: c07e})
 	register(&Rule{ID: "C07.f", Doc: "break-code vocabulary: the predicates the layout rules are stated with mean what their names say", Floor: 4, Run: c07f})
-	register(&Rule{ID: "C07.a", Doc: "FormatText conservation: words written once, flush before reset, final flush, who-writes-what", Floor: 10, Run: c07a})
+	register(&Rule{ID: "C07.a", Doc: "FormatText conservation: words written once, flush before reset, final flush, who-writes-what", Floor: 19, Run: c07a})
 	register(&Rule{ID: "C07.b", Doc: "break choice predicate agrees at both sites; line counter discipline", Floor: 4, Run: c07b})
 	register(&Rule{ID: "C07.c", Doc: "format() parameter binding and font-config fallbacks", Floor: 8, Run: c07c})
 }
